@@ -520,6 +520,7 @@ func runC06(res *Result, rng *RNG, tier string, outDir string) {
 	cf.Raw("Definition Mun := Eval vm_compute in mismatches (un_row_ok (orx rx_tbl) panel) un_rows.\nPrint Mun.\n")
 	cf.Raw("Definition Mexpr := Eval vm_compute in mismatches (expr_ok (orx rx_tbl)) ecases.\nPrint Mexpr.\n")
 	res.ModelCases = len(binRows)*len(panel) + len(unRows)*len(panel) + len(exprCases)
+	res.Extra["group_sizes"] = []int{len(binRows), len(unRows), len(exprCases)}
 	res.CaseDescs = append(res.CaseDescs, exprDescs...)
 	res.Exhaustive = false
 	res.Extra["panel_size"] = len(panel)
